@@ -215,6 +215,12 @@ class SiteScan:
                                 return True, ""
                             if ga[2] == x and ga[1][0] == "const" and isinstance(ga[1][2], int) and go is True and ga[1][2] + 1 >= b_[2]:
                                 return True, ""
+                # (c as usize) - K under is_ascii_digit(c): an ASCII digit is at least '0' = 48
+                if a[0] == "cast" and b_[0] == "const" and isinstance(b_[2], int) and b_[2] <= 48:
+                    x = a[2] if len(a) > 2 else None
+                    for ga, go in g.items():
+                        if go is True and ga[0] == "call" and ga[1].endswith("is_ascii_digit") and ga[2] and (ga[2][0] == x or ga[2][0] == ("ref", x)):
+                            return True, ""
                 # a = x + c, b = c' with c >= c'
                 if a[0] == "add" and a[1][0] == "const" and b_[0] == "const" and a[1][2] >= b_[2]:
                     return True, ""
